@@ -1250,10 +1250,34 @@ def remap_from_lambda(
         )
     orig_type = o_stream.item_type
     var_name = positional_args[0].arg
+
+    # Default values are evaluated where the lambda is written (its own parameter means
+    # nothing there): the calls in them are call sites of the query like any other, and a
+    # further parameter has the type of its default.
+    stream = o_stream
+    l_args = l_func.args
+    parameter_types: Dict[str, Any] = {}
+    if len(l_args.defaults) > 0 or any(d is not None for d in l_args.kw_defaults):
+        new_defaults = []
+        for d in l_args.defaults:
+            stream, new_d, _ = remap_by_types(stream, known_types, d)
+            new_defaults.append(new_d)
+        new_kw_defaults: List[Optional[ast.expr]] = []
+        for a, d in zip(l_args.kwonlyargs, l_args.kw_defaults):
+            if d is None:
+                new_kw_defaults.append(None)
+                continue
+            stream, new_d, d_type = remap_by_types(stream, known_types, d)
+            new_kw_defaults.append(new_d)  # type: ignore
+            parameter_types[a.arg] = d_type
+        l_args = copy.copy(l_args)
+        l_args.defaults = new_defaults
+        l_args.kw_defaults = new_kw_defaults
+
     stream, new_body, return_type = remap_by_types(
-        o_stream, known_types | {var_name: orig_type}, l_func.body
+        stream, known_types | parameter_types | {var_name: orig_type}, l_func.body
     )
-    return stream, ast.Lambda(l_func.args, new_body), return_type  # type: ignore
+    return stream, ast.Lambda(l_args, new_body), return_type  # type: ignore
 
 
 def reset_global_functions():
